@@ -8,6 +8,7 @@ import (
 	"io"
 	"log"
 	"os"
+	"slices"
 	"sync"
 	"time"
 	"unsafe"
@@ -600,6 +601,12 @@ func (cachefile *cacheFile) SetData(stream *index.Stream, convertedPackets []ind
 func (cachefile *cacheFile) setData(streamID uint64, streamTime time.Time, convertedPackets []index.Data) error {
 	cachefile.rwmutex.Lock()
 	defer cachefile.rwmutex.Unlock()
+
+	// A chunk size of zero is the direction/end marker of the file format,
+	// chunks without data can't be stored and carry no information. Drop them.
+	if slices.ContainsFunc(convertedPackets, func(p index.Data) bool { return len(p.Content) == 0 }) {
+		convertedPackets = slices.DeleteFunc(slices.Clone(convertedPackets), func(p index.Data) bool { return len(p.Content) == 0 })
+	}
 
 	if cachefile.freeSize >= cleanupMinFreeSize && cachefile.freeSize >= int64(float64(cachefile.fileSize)*cleanupMinFreeFactor) {
 		if err := cachefile.truncateFile(); err != nil {
